@@ -397,7 +397,10 @@ func families3(r *ev.Run) (coordFams []*mapFamily[model3d.Coord3D], edgeFams []*
 	A, B := model3d.XYZ(1, 0, 0), model3d.XYZ(0, 1, 0)
 	Ap, ok := collide3(A)
 	if !ok {
-		ev.Fatal("could not construct a colliding 3D key")
+		// the hash is not the linear one the construction inverts (a change to the hash function alone does not
+		// break the property): run without a colliding pair and say so
+		Ap = model3d.XYZ(0, 0, 0.5)
+		r.Assume("no colliding 3D key could be constructed for the current hash function: the fast-map fallback to a real map was not driven through a collision")
 	}
 	Z, NZ := model3d.XYZ(0, 0, 0), model3d.XYZ(negZero, negZero, negZero)
 	keys := []model3d.Coord3D{A, B, Ap, Z, NZ}
@@ -439,7 +442,8 @@ func families2(r *ev.Run) (coordFams []*mapFamily[model2d.Coord], edgeFams []*ma
 	A, B := model2d.XY(1, 0), model2d.XY(0.5, 1)
 	Ap, ok := collide2(A)
 	if !ok {
-		ev.Fatal("could not construct a colliding 2D key")
+		Ap = model2d.XY(0, 0.5)
+		r.Assume("no colliding 2D key could be constructed for the current hash function: the fast-map fallback to a real map was not driven through a collision")
 	}
 	Z, NZ := model2d.XY(0, 0), model2d.XY(negZero, negZero)
 	keys := []model2d.Coord{A, B, Ap, Z, NZ}
